@@ -329,6 +329,17 @@ func (t *Tap) Problems() ([]TapProblem, TapStats) {
 	return ps, st
 }
 
+// SentVCalls: the call ids that appeared in a request frame.
+func (t *Tap) SentVCalls(into map[string]bool) {
+	t.mu.Lock()
+	defer t.mu.Unlock()
+	for _, q := range t.reqs {
+		if q.VCall != "" {
+			into[q.VCall] = true
+		}
+	}
+}
+
 // ReplyCounts: for every request frame that carried a call id, how many response frames answered it.
 func (t *Tap) ReplyCounts() map[string]int {
 	t.mu.Lock()
